@@ -84,7 +84,7 @@ EntriesC == G.entries   RichC == G.rich         Cross == G.cross         Battery
 
 \* the calls made on every opened document, in this order (reads, edits, saves)
 BatteryFull == <<"GetParagraphs", "GetTables", "TableReads", "GetPageSettings", "ListHeadings", "Counts", "StyleReads", "ToBytes",
-                 "AddParagraph", "ParaSetters", "UnmergeCells", "SetCellText", "CellFormat", "InsertRow", "AppendRow", "InsertColumn", "AppendColumn",
+                 "AddParagraph", "ParaSetters", "UnmergeCells", "CellFormat", "SetCellText", "InsertRow", "AppendRow", "InsertColumn", "AppendColumn",
                  "MergeCells", "UnmergeCells", "TableLook", "NestedTable", "CopyTable", "DeleteColumn", "DeleteRow",
                  "PageSetters", "AddHeader", "AddFooter", "AddImage", "CellImage", "AddListItem", "AddFootnote", "AddEndnote",
                  "SetTitle", "AddTable", "TOC", "RemoveParagraphAt", "Template", "ToBytes", "SaveFile">>
